@@ -76,6 +76,16 @@ func supervise(o *vh.Opts) bool {
 	if len(stderr) > 1<<20 {
 		stderr = stderr[:1<<20]
 	}
+	if !strings.Contains(stderr, "fatal error:") {
+		// an ordinary panic that escaped the worker is a defect of this harness (every call into the
+		// implementation runs under recover()), not a property verdict: fail loudly without a summary
+		tail := stderr
+		if len(tail) > 3000 {
+			tail = tail[:3000]
+		}
+		fmt.Printf("HARNESS CRASH (not a property verdict): %v\n%s\n", err, tail)
+		os.Exit(2)
+	}
 	sum := vh.NewSummary("C03", o, "worker process died; only the in-flight case is reported")
 	var c Case
 	if b, e := os.ReadFile(inflightPath(o)); e == nil {
